@@ -1096,7 +1096,38 @@ def rule_lifecycle(prog):
         out.add("server::LanguageServer::run", "sender `%s` is dropped or moved away before the tasks are awaited" % sname.split("#")[0],
                 released is not None, c.loc(run["sp"]),
                 "a live Sender keeps the receiving task's loop running forever: the server would hang instead of terminating", ("join",))
+    _optional_params(prog, out)
     return out
+
+
+def _optional_params(prog, out):
+    """JSON-RPC 2.0: the `params` member of a request or notification object MAY be omitted (`{"jsonrpc":"2.0","id":7,"method":"shutdown"}`).
+    The incoming message is an untagged enum: a request whose Deserialize demands `params` does not fail, it falls through to the next
+    variant - a notification, whose id nobody reads - and never gets its response.  Read from the derived Deserialize impls as the
+    compiler expanded them: a call object (a struct with the members `method` and `params`) has no `missing_field("params")`."""
+    c = prog.lsp
+    seen = {}
+    for b in c.bodies:
+        if "Deserialize" not in b["d"] or "/tests" in c.file_of(b["sp"]):
+            continue
+        req = set()
+        for n in hir.nodes(b["body"]):
+            if n.get("k") in ("Call", "MethodCall") and (hir.callee(n) or "").endswith("missing_field"):
+                for x in hir.nodes(n, "Lit"):
+                    v = hir.lit_value(x)
+                    if isinstance(v, str):
+                        req.add(v)
+        if req:
+            ty = b["d"].split(" for ", 1)[1].split(">", 1)[0] if " for " in b["d"] else b["d"]
+            seen.setdefault(ty, [set(), b])[0].update(req)
+    for ty, (req, b) in sorted(seen.items()):
+        adt = next((a for p_, a in c.adts.items() if p_.endswith(ty) or p_.endswith("::" + ty.split("::")[-1])), None)
+        names = {f["name"] for v in (adt or {}).get("variants") or [] for f in v.get("fields") or []}
+        if not {"method", "params"} <= names:
+            continue
+        out.add(ty, "`params` may be omitted in an incoming call object", "params" not in req, c.loc(b["sp"]),
+                "the derived Deserialize demands the members %s; JSON-RPC makes `params` optional, and in the untagged Message enum a "
+                "request that fails to match falls through to Notification: it is dropped without a response" % sorted(req), ("params",))
 
 
 def _path_sig(c, p):
